@@ -252,7 +252,7 @@ func describeWant(kind, want string, rd rread) string {
 
 func c20Bases(c *ctx) []*rgrammar {
 	r := c.rng("bases")
-	n := c.n(12, 60)
+	n := c.n(12, 150)
 	var out []*rgrammar
 	for i := 0; i < n; i++ {
 		out = append(out, genSyntacticSpec(r, 2+r.intn(4), 1+r.intn(3)))
